@@ -382,7 +382,20 @@ def gen_input(proc, rng, extra_procs=(), data_mode=None, tries=200, size_cap=8, 
             n = spec.pop("_size")
             btn = spec.pop("_bt")
             spec.pop("_win")
-            if btn in _INT_RANGE:
+            if data_mode == "fine":
+                # for precision casts: small integers (sums stay in range), quarter-valued floats
+                # (truncation toward zero vs. rounding differ), and doubles that are not floats
+                if btn in _INT_RANGE:
+                    lo, hi = _INT_RANGE[btn]
+                    vals = [rng.randint(max(lo, -40), min(hi, 40)) for _ in range(n)]
+                else:
+                    vals = []
+                    for _ in range(n):
+                        v = Fraction(rng.randint(-64, 64), rng.choice([1, 2, 4, 4]))
+                        if btn == "F64" and rng.random() < 0.4:
+                            v += Fraction(rng.choice([1, 3, 5, 7]) * rng.choice([1, -1]), 2 ** rng.choice([26, 30, 40]))
+                        vals.append(num(v))
+            elif btn in _INT_RANGE:
                 lo, hi = _INT_RANGE[btn]
                 if data_mode == "distinct" and (hi - lo + 1) >= n:
                     vals = rng.sample(range(lo, hi + 1), n)
